@@ -97,7 +97,7 @@ def make_cases(rng, tier):
         qts = [tuple(rng.sample(range(n), rng.randint(1, min(2, n)))) for _ in range(nops)]
         mats = [rand_gint(rng, len(q)) for q in qts]
         terms = "[" + "; ".join(f"(1, {nats(q)}, {zmat(M)})" for q, M in zip(qts, mats)) + "]"
-        cases.append(dict(kind="KrausChannel", n=n, scale=1, qubits=qts,
+        cases.append(dict(kind="KrausChannel", n=n, scale=1, qubits=qts, w0=0, terms=terms,
                           build=(lambda qts=qts, mats=mats: gates.KrausChannel(list(qts), [m.astype(complex) for m in mats])),
                           coq=lambda rho, n=n, terms=terms: f"apply_kraus {n}%nat 0 {terms} {zmat(rho)}"))
         # B: UnitaryChannel with dyadic probabilities
@@ -106,7 +106,7 @@ def make_cases(rng, tier):
         qts = [tuple(rng.sample(range(n), rng.randint(1, min(2, n)))) for _ in range(nops)]
         mats = [rand_gint(rng, len(q)) for q in qts]
         terms = "[" + "; ".join(f"({w}, {nats(q)}, {zmat(M)})" for w, q, M in zip(ws, qts, mats)) + "]"
-        cases.append(dict(kind="UnitaryChannel", n=n, scale=D, qubits=qts,
+        cases.append(dict(kind="UnitaryChannel", n=n, scale=D, qubits=qts, w0=D - sum(ws), terms=terms,
                           build=(lambda qts=qts, mats=mats, ws=ws: gates.UnitaryChannel(list(qts), [(w / D, m.astype(complex)) for w, m in zip(ws, mats)])),
                           coq=lambda rho, n=n, terms=terms, ws=ws: f"apply_kraus {n}%nat {D - sum(ws)} {terms} {zmat(rho)}"))
         # C: PauliNoiseChannel
@@ -121,7 +121,7 @@ def make_cases(rng, tier):
                 M = np.kron(M, P[ch])
             return M
         terms = "[" + "; ".join(f"({w}, {nats(qs)}, {zmat(pmat(s))})" for w, s in zip(ws, strings)) + "]"
-        cases.append(dict(kind="PauliNoiseChannel", n=n, scale=D, qubits=[qs],
+        cases.append(dict(kind="PauliNoiseChannel", n=n, scale=D, qubits=[qs], w0=D - sum(ws), terms=terms,
                           build=(lambda qs=qs, strings=strings, ws=ws: gates.PauliNoiseChannel(qs, [(s, w / D) for s, w in zip(strings, ws)])),
                           coq=lambda rho, n=n, terms=terms, ws=ws: f"apply_kraus {n}%nat {D - sum(ws)} {terms} {zmat(rho)}"))
     # D: ResetChannel at every position
@@ -145,6 +145,47 @@ def make_cases(rng, tier):
                                   build=(lambda qs=qs, lamD=lamD: gates.DepolarizingChannel(qs, lamD / D)),
                                   coq=lambda rho, n=n, qs=qs, lamD=lamD, wl=wl: f"depol_closed {n}%nat {nats(qs)} {D - lamD} {wl} {zmat(rho)}"))
     return cases
+
+
+def views_exact(run, cases):
+    """Channel.to_choi / to_liouville / to_pauli_liouville of the real objects (dyadic coefficients, scaled by D) against the
+    models chan_choi / chan_liouville / chan_pauli of C04/Views.v -- the ones channel_views_describe_apply_kraus is about"""
+    ok = True
+    try:
+        vcore.ensure_static_build(["C04/Views"])
+    except Exception as e:  # noqa: BLE001
+        ok = False
+        run.notes["Views_build_error"] = str(e)[-600:]
+    for name in vcore.props_theorems("C04/Views.v"):
+        run.oblige("Views." + name, ok, "static theorem (views of the channel object describe apply_kraus, every n)")
+    if not ok:
+        run.find("coq:C04/Views", "C04/Views.v (or the C17 theories it uses) does not build", {}, concrete=False)
+        return
+    hdr = ("From Coq Require Import ZArith List Bool.\nFrom QV Require Import Base.Mat Base.Zi C17.Alg C17.Model C17.ZiInst "
+           "C04.ChannelSpec C04.Views.\nImport ListNotations. Open Scope Z_scope.\n")
+    sel = [c for c in cases if "terms" in c and c["n"] <= 2][:8]
+    items, meta = [], []
+    for cs in sel:
+        n, d, sc = cs["n"], 2 ** cs["n"], cs["scale"]
+        for order, o, col in (("row", f"(Row {d}%nat)", "false"), ("column", f"(Col {d}%nat)", "true"), ("system", f"(Sys {n}%nat)", None)):
+            C = np.asarray(cs["build"]().to_choi(nqubits=n, order=order)) * sc
+            items.append(f"zmeqb (chan_choi {o} {n}%nat {cs['w0']} {cs['terms']}) {zmat(C)}")
+            meta.append((cs, f"to_choi({order})"))
+            if col is not None:
+                L = np.asarray(cs["build"]().to_liouville(nqubits=n, order=order)) * sc
+                items.append(f"zmeqb (chan_liouville {col} {n}%nat {cs['w0']} {cs['terms']}) {zmat(L)}")
+                meta.append((cs, f"to_liouville({order})"))
+        for po in ("IXYZ", "ZXIY"):
+            Pm = np.asarray(cs["build"]().to_pauli_liouville(nqubits=n, normalize=False, pauli_order=po)) * sc
+            pn = "[" + ";".join(str("IXYZ".index(ch)) for ch in po) + "]%nat"
+            items.append(f"zmeqb (chan_pauli {pn} {n}%nat {cs['w0']} {cs['terms']}) {zmat(Pm)}")
+            meta.append((cs, f"to_pauli_liouville({po})"))
+    out, log = run.coq_bools("C04_views.v", hdr, [(f"v{i}", t) for i, t in enumerate(items)], timeout=900)
+    for i, (cs, view) in enumerate(meta):
+        good = out is not None and out[f"v{i}"]
+        check(run, f"view_model:{cs['kind']}:{view.split('(')[0]}", good,
+              {"class": cs["kind"], "n": cs["n"], "qubits": [list(q) for q in cs["qubits"]], "view": view,
+               "coq_compiled": out is not None})
 
 
 def superop_views(ch, n, rho, expect, scale):
@@ -353,6 +394,7 @@ def main(run):
             run.find(f"representation:{cs['kind']}:{vb.split('(')[0]}", f"{vb} of {cs['kind']} does not describe the simulated map",
                      {"class": cs["kind"], "n": cs["n"], "qubits": [list(q) for q in cs["qubits"]], "view": vb})
     run.oblige("correspondence_dm_execution_equals_declared_map", nbad == 0, "correspondence")
+    views_exact(run, cases)
     kraus_lists(run, rng)
     fast_vs_kraus(run, rng, run.tier)
     for key, stt in _checks.items():
